@@ -46,9 +46,9 @@ MkMsg(op) == [op |-> op, id |-> 0, n |-> 0, host |-> "", port |-> 0,
 NoMsg == MkMsg("none")
 MConnect(id, rwnd, host, port, g) == [MkMsg("connect") EXCEPT !.id = id, !.n = rwnd, !.host = host, !.port = port, !.g = g]
 MAck(id, n, g)   == [MkMsg("ack") EXCEPT !.id = id, !.n = n, !.g = g]
-MReset(id)       == [MkMsg("reset") EXCEPT !.id = id]
-MFinish(id)      == [MkMsg("finish") EXCEPT !.id = id]
-MPush(id, w, off, len) == [MkMsg("push") EXCEPT !.id = id, !.w = w, !.off = off, !.len = len]
+MReset(id, g)    == [MkMsg("reset") EXCEPT !.id = id, !.g = g]
+MFinish(id, g)   == [MkMsg("finish") EXCEPT !.id = id, !.g = g]
+MPush(id, w, off, len, g) == [MkMsg("push") EXCEPT !.id = id, !.w = w, !.off = off, !.len = len, !.g = g]
 MBind(id, bt, host, port, g) == [MkMsg("bind") EXCEPT !.id = id, !.bt = bt, !.host = host, !.port = port, !.g = g]
 MDgram(id, host, port, data, g) == [MkMsg("dgram") EXCEPT !.id = id, !.host = host, !.port = port, !.data = data, !.g = g]
 
@@ -105,6 +105,8 @@ InitState(cfg) ==
    dgSent |-> [e \in E |-> <<>>],        \* ghost: datagrams accepted by send_datagram on e (g values)
    dgGot  |-> [e \in E |-> 0],           \* ghost: index in dgSent[Peer(e)] of the last datagram delivered to e's application
    bindAns |-> <<>>,                     \* ghost: function bind ghost id -> "accept"|"reject"
+   kf     |-> {},                        \* ghost: known design limitations met on this behaviour (see Stale below)
+   confused |-> FALSE,                   \* ghost: a frame / notification of an old incarnation acted on a re-used flow id
    obs    |-> NoObs,
    viol   |-> {}]
 
@@ -122,6 +124,12 @@ DelCall(s, e, c) ==
 HasCall(s, e, c) == c \in DOMAIN s.calls[e]
 
 Flag(s, name) == [s EXCEPT !.viol = @ \cup {name}]
+(* Penguin flow ids carry no generation number.  When an id is re-used while frames (or a drop
+   notification) of its previous incarnation are still under way, they act on the new incarnation.
+   The ghost field `g` of every message names the incarnation it belongs to, so the specification
+   can tell: such a step is recorded in `kf` and switches the design-level monitors off for the rest
+   of the behaviour (conformance of the implementation to the step functions is still checked).    *)
+Stale(s, name) == [s EXCEPT !.kf = @ \cup {name}, !.confused = TRUE, !.healthy = FALSE]
 Obs(s, o) == [s EXCEPT !.obs = o]
 Wake(s, w) == [s EXCEPT !.obs.wake = @ \cup w]
 
@@ -209,7 +217,7 @@ Write(s, e, h, len) ==
     ELSE IF s.outClosed[e]
          THEN {Obs([s EXCEPT !.hnd[e][h].credit = @ - 1, !.hnd[e][h].wreg = FALSE], [NoObs EXCEPT !.res = "broken"])}
     ELSE {Obs(Out([s EXCEPT !.hnd[e][h].credit = @ - 1, !.hnd[e][h].woff = @ + len, !.hnd[e][h].wreg = FALSE],
-                  e, MPush(x.id, h, x.woff, len)),
+                  e, MPush(x.id, h, x.woff, len, x.conn)),
               [NoObs EXCEPT !.res = "ok", !.n = len])}
 
 (* reader side: acknowledgement policy after one frame was taken from the inbound queue *)
@@ -226,7 +234,7 @@ PopFrame(s, e, h) ==
       x1 == [x EXCEPT !.inq = Tail(@), !.buf = ch, !.since = @ + 1, !.consumed = @ + 1]
   IN { LET x2 == [x1 EXCEPT !.since = @ - n, !.ackSent = @ + n]
            s1 == [s EXCEPT !.hnd[e][h] = x2]
-           s2 == IF n > 0 THEN Out(s1, e, MAck(x.id, n, 0)) ELSE s1
+           s2 == IF n > 0 THEN Out(s1, e, MAck(x.id, n, x.conn)) ELSE s1
        IN [s2 EXCEPT !.obs.ack = n]
        : n \in AckChoices(x1, s.cfg[e].rwnd) }
 
@@ -237,7 +245,7 @@ ReadCheck(s, e, h, ch) ==
              \/ /\ ch.w \in DOMAIN s.hnd[Peer(e)]
                 /\ \/ s.hnd[Peer(e)][ch.w].conn # x.conn
                    \/ ch.off # x.roff
-  IN IF bad THEN Flag(s, "C02.Prefix") ELSE s
+  IN IF bad /\ ~s.confused THEN Flag(s, "C02.Prefix") ELSE s
 
 (* monitor for C05 evaluated when a read reports end-of-stream *)
 EofCheck(s, e, h) ==
@@ -249,7 +257,7 @@ EofCheck(s, e, h) ==
            /\ \A p \in ps : LET y == s.hnd[Peer(e)][p] IN y.finQ /\ x.roff = y.woff
         \/ /\ x.eof = "reset"
            /\ \A p \in ps : LET y == s.hnd[Peer(e)][p] IN y.st = "dropped" \/ y.closedW
-  IN IF okCause THEN s ELSE Flag(s, "C05.Eof")
+  IN IF okCause \/ s.confused THEN s ELSE Flag(s, "C05.Eof")
 
 RECURSIVE ReadFrom(_, _, _, _)
 ReadFrom(s, e, h, max) ==
@@ -283,14 +291,14 @@ Shutdown(s, e, h) ==
   IF h \notin DOMAIN s.hnd[e] \/ s.hnd[e][h].st # "app" THEN {}
   ELSE IF s.hnd[e][h].closedW THEN {Obs(s, [NoObs EXCEPT !.res = "ok"])}
   ELSE {Obs(Out([s EXCEPT !.hnd[e][h].closedW = TRUE,
-                          !.hnd[e][h].finQ = ~s.outClosed[e]], e, MFinish(s.hnd[e][h].id)),
+                          !.hnd[e][h].finQ = ~s.outClosed[e]], e, MFinish(s.hnd[e][h].id, s.hnd[e][h].conn)),
             [NoObs EXCEPT !.res = "ok"])}
 
 (* a MuxStream is dropped (by the application, or because a queue holding it is destroyed) *)
 DropHandle(s, e, h) ==
   LET s1 == [s EXCEPT !.hnd[e][h].st = "dropped", !.hnd[e][h].inq = <<>>, !.hnd[e][h].buf = NoChunk,
                       !.hnd[e][h].wreg = FALSE, !.hnd[e][h].rreg = FALSE]
-  IN IF s.dropsClosed[e] THEN s1 ELSE [s1 EXCEPT !.drops[e] = Append(@, s.hnd[e][h].id)]
+  IN IF s.dropsClosed[e] THEN s1 ELSE [s1 EXCEPT !.drops[e] = Append(@, [id |-> s.hnd[e][h].id, h |-> h])]
 
 DropStream(s, e, h) ==
   IF h \notin DOMAIN s.hnd[e] \/ s.hnd[e][h].st # "app" THEN {}
@@ -300,7 +308,7 @@ DropStream(s, e, h) ==
 BindReply(s, e, r, accept) ==
   IF r \notin DOMAIN s.breq[e] \/ ~s.breq[e][r].open THEN {}
   ELSE LET q == s.breq[e][r]
-           s1 == Out(s, e, IF accept THEN MFinish(q.id) ELSE MReset(q.id))
+           s1 == Out(s, e, IF accept THEN MFinish(q.id, q.g) ELSE MReset(q.id, q.g))
            ans == IF s.outClosed[e] THEN "lost" ELSE IF accept THEN "accept" ELSE "reject"
            (* only the first answer that reaches the queue counts for the ghost *)
            ba == IF q.g \in DOMAIN s.bindAns THEN s.bindAns
@@ -318,14 +326,14 @@ DropHandles(s, e, hs) ==
 RECURSIVE RejectQueuedBinds(_, _, _)
 RejectQueuedBinds(s, e, q) ==
   IF q = <<>> THEN s
-  ELSE RejectQueuedBinds(Out(s, e, MReset(Head(q).id)), e, Tail(q))
+  ELSE RejectQueuedBinds(Out(s, e, MReset(Head(q).id, Head(q).g)), e, Tail(q))
 
 (* the Multiplexor handle is dropped: notification 0, then every receiver it owns is destroyed *)
 DropMux(s, e) ==
   IF ~s.mux[e] THEN {}
   ELSE
     LET s0 == [s EXCEPT !.mux[e] = FALSE, !.calls[e] = <<>>, !.flushTo[e] = s.enq[e]]
-        s1 == IF s.dropsClosed[e] THEN s0 ELSE [s0 EXCEPT !.drops[e] = Append(@, 0)]
+        s1 == IF s.dropsClosed[e] THEN s0 ELSE [s0 EXCEPT !.drops[e] = Append(@, [id |-> 0, h |-> 0])]
         (* streams still sitting in a oneshot of a cancelled open call are dropped with it *)
         got == {c \in DOMAIN s.calls[e] : s.calls[e][c].k = "open" /\ s.calls[e][c].resp = "some"}
         gotSeq == SetToSeq({s.calls[e][c].h : c \in got})
@@ -413,7 +421,7 @@ CloseLocal(s, e, id, sl, inhibit, cause) ==
          LET x  == s.hnd[e][sl.h]
              s1 == [s EXCEPT !.hnd[e][sl.h].closedW = TRUE,
                              !.hnd[e][sl.h].eof = IF x.eof = "none" /\ sl.rd THEN cause ELSE x.eof]
-             s2 == IF ~x.closedW /\ ~inhibit THEN Out(s1, e, MReset(id)) ELSE s1
+             s2 == IF ~x.closedW /\ ~inhibit THEN Out(s1, e, MReset(id, x.conn)) ELSE s1
          IN Wake(s2, (IF x.wreg THEN {WakeW(e, sl.h)} ELSE {}) \cup (IF x.rreg /\ sl.rd THEN {WakeR(e, sl.h)} ELSE {}))
     [] sl.k = "Req" ->
          IF HasCall(s, e, sl.c) /\ s.calls[e][sl.c].resp = "pending" /\ s.calls[e][sl.c].id = id
@@ -434,7 +442,7 @@ BeginWd(s0, e, drain, res) ==
       b  == s0.rxblk[e]
       sa == [s0 EXCEPT !.rxblk[e] = [k |-> "none", h |-> 0, m |-> NoMsg]]
       s  == CASE b.k = "accept" -> DropHandle(sa, e, b.h)
-              [] b.k = "bind"   -> Out(sa, e, MReset(b.m.id))
+              [] b.k = "bind"   -> Out(sa, e, MReset(b.m.id, b.m.g))
               [] OTHER -> sa
       hs == {s.slot[e][id].h : id \in {i \in DOMAIN s.slot[e] : s.slot[e][i].k = "Est"}}
       s1 == [s EXCEPT !.hnd[e] = [h \in DOMAIN s.hnd[e] |->
@@ -444,7 +452,7 @@ BeginWd(s0, e, drain, res) ==
 
 (* con_recv_new_stream; returns the new state, possibly with the task leaving its main loop *)
 ProcConnect(s, e, m, inWd) ==
-  IF m.id = 0 \/ HasSlot(s, e, m.id) THEN Out(s, e, MReset(m.id))
+  IF m.id = 0 \/ HasSlot(s, e, m.id) THEN Out(s, e, MReset(m.id, m.g))
   ELSE
     LET h  == Len(s.hnd[e]) + 1
         x  == NewHandle(m.id, m.n, Threshold(s.cfg[e], m.n), m.host, m.port, m.g, "acc")
@@ -461,8 +469,18 @@ ProcConnect(s, e, m, inWd) ==
            THEN Wake([s2 EXCEPT !.acceptq[e] = Append(@, h)], {[k |-> "acc", e |-> e, x |-> 0]})
          ELSE [s2 EXCEPT !.rxblk[e] = [k |-> "accept", h |-> h, m |-> NoMsg]]
 
-ProcAck(s, e, m, inWd) ==
-  LET sl == SlotOf(s, e, m.id) IN
+(* does message m belong to the incarnation that currently owns slot sl of endpoint e? *)
+SameInc(s, e, sl, m) ==
+  CASE sl.k = "Est" -> s.hnd[e][sl.h].conn = m.g
+    [] sl.k \in {"Req", "Bind"} -> HasCall(s, e, sl.c) /\ s.calls[e][sl.c].cid = m.g
+    [] OTHER -> TRUE
+(* adversary / scripted-peer messages carry g = 0 and are never called stale *)
+MarkStale(s, e, sl, m) ==
+  IF m.g # 0 /\ sl.k # "none" /\ ~SameInc(s, e, sl, m) THEN Stale(s, "StaleFrame") ELSE s
+
+ProcAck(s0, e, m, inWd) ==
+  LET sl == SlotOf(s0, e, m.id)
+      s  == MarkStale(s0, e, sl, m) IN
   CASE sl.k = "Est" ->
          LET x == s.hnd[e][sl.h] IN
          Wake([s EXCEPT !.hnd[e][sl.h].credit = @ + m.n, !.hnd[e][sl.h].ackGot = @ + m.n,
@@ -478,18 +496,19 @@ ProcAck(s, e, m, inWd) ==
             THEN Wake([s1 EXCEPT !.calls[e][sl.c].resp = "some", !.calls[e][sl.c].h = h], {WakeC(e, sl.c)})
             ELSE (* requester is gone: Err(SendStreamToClient), stream dropped *)
                  LET s2 == DropHandle(s1, e, h) IN IF inWd THEN s2 ELSE BeginWd(s2, e, FALSE, "sendstream")
-    [] OTHER -> Out(s, e, MReset(m.id))
+    [] OTHER -> Out(s, e, MReset(m.id, m.g))
 
-ProcFinish(s, e, m) ==
-  LET sl == SlotOf(s, e, m.id) IN
-  CASE sl.k = "none" -> Out(s, e, MReset(m.id))
+ProcFinish(s0, e, m) ==
+  LET sl == SlotOf(s0, e, m.id)
+      s  == MarkStale(s0, e, sl, m) IN
+  CASE sl.k = "none" -> Out(s, e, MReset(m.id, m.g))
     [] sl.k = "Bind" ->
          LET s1 == DelSlot(s, e, m.id) IN
          IF HasCall(s, e, sl.c) /\ s.calls[e][sl.c].resp = "pending" /\ s.calls[e][sl.c].id = m.id
          THEN Wake([s1 EXCEPT !.calls[e][sl.c].resp = "true"], {WakeC(e, sl.c)}) ELSE s1
     [] sl.k = "Req" ->
          (* the slot (and with it the oneshot sender) is destroyed without an answer *)
-         LET s1 == Out(DelSlot(s, e, m.id), e, MReset(m.id)) IN
+         LET s1 == Out(DelSlot(s, e, m.id), e, MReset(m.id, m.g)) IN
          IF HasCall(s, e, sl.c) /\ s.calls[e][sl.c].resp = "pending" /\ s.calls[e][sl.c].id = m.id
          THEN Wake([s1 EXCEPT !.calls[e][sl.c].resp = "closed"], {WakeC(e, sl.c)}) ELSE s1
     [] sl.k = "Est" ->
@@ -501,8 +520,13 @@ ProcFinish(s, e, m) ==
          ELSE s
     [] OTHER -> s
 
-ProcPush(s, e, m) ==
-  LET sl == SlotOf(s, e, m.id) IN
+ProcReset(s0, e, m) ==
+  LET sl == SlotOf(s0, e, m.id) IN
+  CloseFlow(MarkStale(s0, e, sl, m), e, m.id, TRUE, "reset")
+
+ProcPush(s0, e, m) ==
+  LET sl == SlotOf(s0, e, m.id)
+      s  == MarkStale(s0, e, sl, m) IN
   IF sl.k = "Est" /\ sl.rd THEN
     LET x == s.hnd[e][sl.h] IN
     IF x.st = "dropped" \/ x.rdClosed THEN s                         \* TrySendError::Closed: silently ignored
@@ -511,13 +535,13 @@ ProcPush(s, e, m) ==
     ELSE Wake([s EXCEPT !.hnd[e][sl.h].inq = Append(@, [w |-> m.w, off |-> m.off, len |-> m.len]),
                         !.hnd[e][sl.h].rreg = FALSE],
               IF x.rreg THEN {WakeR(e, sl.h)} ELSE {})
-  ELSE Out(s, e, MReset(m.id))
+  ELSE Out(s, e, MReset(m.id, m.g))
 
 ProcBind(s, e, m, inWd) ==
-  IF s.cfg[e].bindCap = 0 THEN Out(s, e, MReset(m.id))
+  IF s.cfg[e].bindCap = 0 THEN Out(s, e, MReset(m.id, m.g))
   ELSE IF inWd THEN s
   ELSE LET q == [id |-> m.id, bt |-> m.bt, host |-> m.host, port |-> m.port, g |-> m.g, open |-> FALSE] IN
-       IF ~s.mux[e] THEN Out(s, e, MReset(m.id))                     \* send fails; the BindRequest is dropped = reject
+       IF ~s.mux[e] THEN Out(s, e, MReset(m.id, m.g))                   \* send fails; the BindRequest is dropped = reject
        ELSE IF Len(s.bindq[e]) < s.cfg[e].bindCap
             THEN Wake([s EXCEPT !.bindq[e] = Append(@, q)], {[k |-> "nb", e |-> e, x |-> 0]})
        ELSE [s EXCEPT !.rxblk[e] = [k |-> "bind", h |-> 0, m |-> m]]
@@ -534,7 +558,7 @@ Process(s, e, m, inWd) ==
   CASE m.op = "connect" -> ProcConnect(s, e, m, inWd)
     [] m.op = "ack"     -> ProcAck(s, e, m, inWd)
     [] m.op = "finish"  -> ProcFinish(s, e, m)
-    [] m.op = "reset"   -> CloseFlow(s, e, m.id, TRUE, "reset")
+    [] m.op = "reset"   -> ProcReset(s, e, m)
     [] m.op = "push"    -> ProcPush(s, e, m)
     [] m.op = "bind"    -> ProcBind(s, e, m, inWd)
     [] m.op = "dgram"   -> ProcDgram(s, e, m, inWd)
@@ -560,7 +584,7 @@ Unblock(s, e) ==
          ELSE s
     [] b.k = "bind" ->
          LET q == [id |-> b.m.id, bt |-> b.m.bt, host |-> b.m.host, port |-> b.m.port, g |-> b.m.g, open |-> FALSE] IN
-         IF ~s.mux[e] THEN Out([s EXCEPT !.rxblk[e] = [k |-> "none", h |-> 0, m |-> NoMsg]], e, MReset(b.m.id))
+         IF ~s.mux[e] THEN Out([s EXCEPT !.rxblk[e] = [k |-> "none", h |-> 0, m |-> NoMsg]], e, MReset(b.m.id, b.m.g))
          ELSE IF Len(s.bindq[e]) < s.cfg[e].bindCap
          THEN Wake([s EXCEPT !.bindq[e] = Append(@, q), !.rxblk[e] = [k |-> "none", h |-> 0, m |-> NoMsg]],
                    {[k |-> "nb", e |-> e, x |-> 0]})
@@ -591,9 +615,12 @@ SendOne(s, e) ==
 
 (* one drop notification *)
 DropOne(s, e) ==
-  LET id == Head(s.drops[e])
+  LET nt == Head(s.drops[e])
       s1 == [s EXCEPT !.drops[e] = Tail(@)]
-  IN IF id = 0 THEN BeginWd(s1, e, TRUE, "ok") ELSE CloseFlow(s1, e, id, FALSE, "local")
+      sl == SlotOf(s, e, nt.id)
+      (* the notification names only the flow id: it acts on whatever slot has that id now *)
+      s2 == IF nt.id # 0 /\ sl.k # "none" /\ ~(sl.k = "Est" /\ sl.h = nt.h) THEN Stale(s1, "StaleDrop") ELSE s1
+  IN IF nt.id = 0 THEN BeginWd(s1, e, TRUE, "ok") ELSE CloseFlow(s2, e, nt.id, FALSE, "local")
 
 (* final part of wind_down: close every remaining slot locally, close and drain the drop channel *)
 RECURSIVE CloseAll(_, _, _)
